@@ -203,6 +203,28 @@ model_event_print(struct model *model, struct emu_ev *ev,
 		return -1;
 	}
 
+	/* The arguments are read at fixed offsets of the payload, so the
+	 * event must carry at least the payload its definition declares */
+	if (es->payload_size > 0) {
+		if (ev->payload == NULL || ev->payload_size < es->payload_size) {
+			err("payload of %s too short for its definition", ev->mcv);
+			return -1;
+		}
+
+		for (int i = 0; i < es->nargs; i++) {
+			struct ev_arg *arg = &es->args[i];
+			if (arg->type != STR)
+				continue;
+
+			/* Strings must be terminated inside the payload */
+			const uint8_t *str = (const uint8_t *) ev->payload + arg->offset;
+			if (memchr(str, '\0', ev->payload_size - arg->offset) == NULL) {
+				err("string argument of %s not terminated", ev->mcv);
+				return -1;
+			}
+		}
+	}
+
 	if (ev_spec_print(es, ev, buf, buflen) < 0) {
 		err("cannot print event signature for %s", ev->mcv);
 		return -1;
